@@ -150,6 +150,11 @@ type vfC07Plan struct {
 	WriteFail map[uint32]map[int]bool `json:"write_fail,omitempty"`
 	SlowClose map[uint32]bool         `json:"slow_close,omitempty"` // eventLogger.Close(sid) always sleeps 20 ms
 	SlowDial  map[uint32]bool         `json:"slow_dial,omitempty"`  // UDP() for sid always yields 50 times
+	// Gates: the n-th UDP() dial / Hook call for sid blocks (durably, on the world's cond) until the
+	// driver opens the gate of that session: a dial / hook that takes as long as the harness wants
+	// without any sleep (see vfC07World.AwaitSweepThenOpen).
+	DialGate  map[uint32]map[int]bool `json:"dial_gate,omitempty"`
+	HookGate  map[uint32]map[int]bool `json:"hook_gate,omitempty"`
 	SendLimit int                     `json:"send_limit,omitempty"` // >0: SendMessage reports DatagramTooLarge above this size
 	DelaySeed uint64                  `json:"delay_seed"`
 	NoDelays  bool                    `json:"no_delays,omitempty"`
@@ -273,6 +278,10 @@ type vfC07World struct {
 	frozen bool
 	lastT  int64
 
+	gateOpen    map[uint32]bool
+	gateSeq     map[uint32]int // log position at which a gated call of sid started waiting
+	gateOutcome map[string]int
+
 	runStart    int64 // virtual time at which Run() was started
 	runRet      bool
 	runErr      error
@@ -285,7 +294,7 @@ func vfC07NewWorld(plan *vfC07Plan) *vfC07World {
 	w := &vfC07World{
 		start: time.Now(), plan: plan,
 		nth: map[string]int{}, msgs: map[int]*vfC07Msg{}, replies: map[int]*vfC07Reply{},
-		parts: map[uint64][][]byte{},
+		parts: map[uint64][][]byte{}, gateOpen: map[uint32]bool{}, gateSeq: map[uint32]int{}, gateOutcome: map[string]int{},
 	}
 	w.cond = sync.NewCond(&w.mu)
 	return w
@@ -436,7 +445,8 @@ func (w *vfC07World) Hook(data []byte, reqAddr *string) error {
 	hn := w.hookNo
 	d := w.delay("hook", sid, n, vfC07DelaysHook)
 	w.inflight++
-	w.add(vfC07Ev{Kind: "hook", Ph: 1, Sid: sid, No: no, Addr: orig, Aux: int64(mode)})
+	seq := w.add(vfC07Ev{Kind: "hook", Ph: 1, Sid: sid, No: no, Addr: orig, Aux: int64(mode)})
+	w.waitGate(w.plan.HookGate[sid][n], sid, seq)
 	w.mu.Unlock()
 	vfC07Yield(d) // under connLock: yield, never sleep (see vfC07Yield)
 	w.mu.Lock()
@@ -471,7 +481,8 @@ func (w *vfC07World) UDP(reqAddr string) (UDPConn, error) {
 		d = 50 * time.Millisecond
 	}
 	w.inflight++
-	w.add(vfC07Ev{Kind: "dial", Ph: 1, Sid: sid, Addr: reqAddr, Aux: int64(n)})
+	seq := w.add(vfC07Ev{Kind: "dial", Ph: 1, Sid: sid, Addr: reqAddr, Aux: int64(n)})
+	w.waitGate(w.plan.DialGate[sid][n], sid, seq)
 	w.mu.Unlock()
 	vfC07Yield(d) // under connLock: yield, never sleep (see vfC07Yield)
 	w.mu.Lock()
@@ -509,6 +520,107 @@ func (w *vfC07World) CheckUDP(reqAddr string) error {
 	}
 	w.add(vfC07Ev{Kind: "check", Sid: sid, Addr: reqAddr})
 	return nil
+}
+
+// waitGate parks a gated Hook / UDP() call until the driver opens the session's gate. The wait is
+// on the world's cond, i.e. durably blocking: virtual time keeps running meanwhile. Caller holds w.mu.
+func (w *vfC07World) waitGate(gated bool, sid uint32, seq int) {
+	if !gated {
+		return
+	}
+	w.gateSeq[sid] = seq
+	for !w.gateOpen[sid] && !w.frozen {
+		w.cond.Wait()
+	}
+	w.gateOpen[sid] = false
+	delete(w.gateSeq, sid)
+}
+
+var vfC07LockWaitRe = regexp.MustCompile(`^goroutine \d+ \[sync\.(Mutex\.Lock|RWMutex\.R?Lock)[^\]]*synctest bubble (\d+)\]`)
+
+// AwaitSweepThenOpen makes "the dial (or hook) of sid is still in flight when the sweeper comes
+// for that session" happen deterministically. It must be called at a sweep instant, with the
+// gated call of sid already parked (it started more than the idle timeout earlier, so this sweep
+// selects the session) and with all virtual delays off.
+//
+// No sleep is possible here: on the unchanged code the sweeper now waits for the session's
+// connLock, held by the dialling receive loop; a goroutine waiting for a sync.Mutex is not durably
+// blocked, so virtual time stands still until the dial returns. The driver therefore spins
+// (runtime.Gosched, no clock involved) until it observes one of the two possible outcomes,
+//
+//	"lock-wait": some goroutine of this bubble is parked on a sync.Mutex/RWMutex (stack census), or
+//	"closed":    the Close event of sid was logged after the gated call started and the session
+//	             is gone from the table (an implementation that does not hold the lock while dialling),
+//
+// and then opens the gate. The observation only orchestrates; verdicts come from the usual
+// oracles (socket closed exactly once, no goroutine left, table empty, no write after Close ...).
+// If neither outcome shows up within the spin budget the gate is opened anyway (counted).
+func (w *vfC07World) AwaitSweepThenOpen(sm *udpSessionManager, sid uint32, stackBuf []byte) string {
+	outcome := "none"
+	w.mu.Lock()
+	start, parked := w.gateSeq[sid]
+	w.mu.Unlock()
+	if parked {
+		me, lockSeen := "", 0
+		for i := 0; i < 4000000 && outcome == "none"; i++ {
+			runtime.Gosched()
+			if i%16 != 0 {
+				continue
+			}
+			w.mu.Lock()
+			for j := len(w.evs) - 1; j > start; j-- {
+				if e := &w.evs[j]; e.Kind == "xclose" && e.Ph == 2 && e.Sid == sid {
+					outcome = "closed"
+					break
+				}
+			}
+			w.mu.Unlock()
+			if outcome == "closed" {
+				sm.mutex.RLock()
+				_, still := sm.m[sid]
+				sm.mutex.RUnlock()
+				if still {
+					outcome = "none" // exit still in progress: look again
+				}
+				continue
+			}
+			if i%64 != 0 {
+				continue
+			}
+			n := runtime.Stack(stackBuf, true)
+			seen := false
+			for bi, b := range strings.Split(string(stackBuf[:n]), "\n\n") {
+				if bi == 0 {
+					if m := vfC07BubbleRe.FindStringSubmatch(strings.SplitN(b, "\n", 2)[0]); m != nil {
+						me = m[1]
+					}
+					continue
+				}
+				if m := vfC07LockWaitRe.FindStringSubmatch(b); m != nil && m[2] == me {
+					seen = true
+					break
+				}
+			}
+			// a lock wait that persists over three censuses is the sweeper waiting for the dial,
+			// not a momentary contention
+			if seen {
+				if lockSeen++; lockSeen >= 3 {
+					outcome = "lock-wait"
+				}
+			} else {
+				lockSeen = 0
+			}
+		}
+	} else {
+		outcome = "not-parked"
+	}
+	w.mu.Lock()
+	w.gateOutcome[outcome]++
+	w.add(vfC07Ev{Kind: "gate", Sid: sid, Err: outcome})
+	w.gateOpen[sid] = true
+	w.cond.Broadcast()
+	w.mu.Unlock()
+	return outcome
 }
 
 // ---- udpEventLogger
@@ -1046,6 +1158,26 @@ func vfC07CheckCommon(k *vfKit, w *vfC07World, ix *vfC07Index, report vfC07Repor
 				report("udp:old-socket-reused", wr.Seq, "message %d of session %d received at %v, after the previous session's exit completed at %v, was written to its old closed socket %d instead of a new one",
 					wr.No, m.Sid, time.Duration(rv.T), time.Duration(exit.EndT), s.id)
 			}
+			continue
+		}
+		// A datagram that was received before its session's exit began belongs to that session; once
+		// the session's Close event has completed its socket is closed, so the datagram can no longer
+		// leave through an open socket.
+		var rv *vfC07Act
+		for ai := range ix.RecvOfNo[wr.No] {
+			if a := &ix.RecvOfNo[wr.No][ai]; a.Seq < wr.Seq {
+				rv = a
+			}
+		}
+		var lastExit *vfC07Exit
+		for xi := range ix.Exits[s.sid] {
+			if x := &ix.Exits[s.sid][xi]; x.EndSeq < wr.Seq {
+				lastExit = x
+			}
+		}
+		if rv != nil && lastExit != nil && lastExit.rel(*rv) < 0 {
+			report("udp:write-after-session-close", wr.Seq, "message %d of session %d, received at %v by the session that was closed at %v (Close event err=%q), was written to the open socket %d after that Close event",
+				wr.No, m.Sid, time.Duration(rv.T), time.Duration(lastExit.StartT), lastExit.Err, s.id)
 			continue
 		}
 		if !wr.Failed {
